@@ -159,6 +159,14 @@ def run_case(case, res=None):
             sch_new = loader.SSEScheme(dict(cfg))
             edb1c = sch_new.EDBSetup(loader.SSEKey.deserialize(key1.serialize(), loader.SSEConfig(dict(cfg))), db)
             raw1, raw1b, raw2, raw1c = edb1.serialize(), edb1b.serialize(), edb2.serialize(), edb1c.serialize()
+            # an application that seeds Python's global `random` module (reproducible experiments do) before each of two setups of
+            # the same (key, DB): the library may use `random` for WHERE things go, but every stored entry must still be fresh
+            import random as _random
+            rs = case["seed"] % 1000003
+            _random.seed(rs)
+            raw_r1 = sch.EDBSetup(key1, db).serialize()
+            _random.seed(rs)
+            raw_r2 = sch.EDBSetup(key1, db).serialize()
             kws = list(db.keys())
             absent = [hashlib.sha256(b"c04absent%d" % i + kws[0]).digest()[:len(kws[0])] for i in range(2)]
             absent = [a if a[0] else b"\x01" + a[1:] for a in absent]
@@ -202,6 +210,13 @@ def run_case(case, res=None):
     if inter:
         raise Violation("%s: %d ciphertext blocks are shared by the setups of two scheme instances for the same (key, DB)" % (scheme, len(inter)),
                         "%s:blocks_shared_between_instances" % scheme)
+    if scheme != "CGKO06.SSE2":
+        br1 = set(blocks_of(cipher_values(scheme, S.edb_payload(raw_r1))))
+        br2 = set(blocks_of(cipher_values(scheme, S.edb_payload(raw_r2))))
+        if br1 & br2:
+            raise Violation("%s: %d stored blocks are shared by two setups of the same (key, DB) when the application seeds the global "
+                            "`random` module identically before each (of %d): stored entries come from a predictable generator" % (
+                                scheme, len(br1 & br2), len(br1)), "%s:blocks_shared_when_random_is_seeded" % scheme)
     if case.get("process_boundary") and scheme != "CGKO06.SSE2":
         # the same (key, DB) encrypted by two FRESH interpreters (what two runs of a command-line client do), and by two workers
         # forked from a parent that has already used the library
